@@ -183,6 +183,54 @@ class DocRunner:
         else:
             body.append(Paragraph(t + " " + op.get("text", "")))
 
+    # ---- wrappers that outlive a save: obtained once, edited later without asking the document again -------------
+    kept = None
+
+    def op_keep(self, op):
+        from odfdo import Paragraph, Style
+
+        body = self.doc.body
+        t = self._tok()
+        para = Paragraph(t + " kept")
+        body.append(para)
+        self.n += 1
+        name = f"kstyle{self.n}"
+        self.doc.insert_style(Style("paragraph", name=name, area="text", italic=True))
+        self.tokens["styles.xml"].append(name)
+        self.edited.add("styles.xml")
+        self.kept = {"body": body, "para": para, "style": self.doc.get_style("paragraph", name), "meta": self.doc.meta}
+        self.labels.add("wrappers-kept")
+
+    def op_edit_kept(self, op):
+        """edit through the kept wrappers only (no doc.body / doc.content / doc.get_style call)"""
+        from odfdo import Paragraph
+
+        if not self.kept:
+            return
+        self.n += 1
+        t = f"KTOK{self.n}q"
+        which = op.get("which", "para")
+        if which == "para":
+            self.kept["para"].append(" " + t)
+            self.tokens["content.xml"].append(t)
+            self.edited.add("content.xml")
+        elif which == "body":
+            self.kept["body"].append(Paragraph(t))
+            self.tokens["content.xml"].append(t)
+            self.edited.add("content.xml")
+        elif which == "style":
+            self.kept["style"].set_attribute("style:class", t)
+            # the attribute holds one value: the previous token of this kind is overwritten
+            self.tokens["styles.xml"] = [x for x in self.tokens["styles.xml"] if x != self.kept.get("style_tok")] + [t]
+            self.kept["style_tok"] = t
+            self.edited.add("styles.xml")
+        else:
+            self.kept["meta"].set_user_defined_metadata(f"kk{self.n}", t)
+            self._user.append(t)
+            self.tokens["meta.xml"] = list(self._user) + ([self._title] if self._title else [])
+            self.edited.add("meta.xml")
+        self.labels.add("edit-through-kept-wrapper")
+
     def op_table(self, op):
         from odfdo import Table
 
@@ -277,6 +325,7 @@ class DocRunner:
 
     def op_set_part_xml(self, op):
         """Replace content.xml by bytes holding a fresh token (before or after the part was parsed)."""
+        self.kept = None  # wrappers into the replaced part no longer belong to the document
         from odfdo import Document
 
         other = Document(self.doc.get_type() if self.doc.get_type() in ("text", "spreadsheet", "presentation", "drawing") else "text")
@@ -353,6 +402,7 @@ class DocRunner:
 
     def op_clone(self, op):
         self.doc = self.doc.clone
+        self.kept = None
         self.origin = None  # a clone is not tied to the file of the original
         self.labels.add("clone")
 
@@ -430,6 +480,7 @@ class DocRunner:
             doc2 = reopen()
             self.judge_reopened(doc2, saved)
             self.doc = doc2
+            self.kept = None
             self.origin = new_origin
             self.labels.add("reopened")
             self.lazy = packaging == "zip" and op.get("target") != "bytesio"
@@ -686,6 +737,26 @@ def make_doc_machine(ctx, prop, extra_ops=()):
               tgt=st.sampled_from(["path", "bytesio", "bytesio-reuse", "bytesio-reuse", "same", "same"]), reopen=st.booleans(), pretty=st.booleans())
         def save(self, packaging, tgt, reopen, pretty):
             self.go({"op": "save", "packaging": packaging, "target": tgt, "reopen": reopen, "pretty": pretty})
+
+        @rule(which=st.lists(st.sampled_from(["para", "body", "style", "meta"]), min_size=1, max_size=3),
+              packaging=st.sampled_from(["zip", "zip", "folder"] if prop == "C03" else ["zip"]), tgt=st.sampled_from(["bytesio", "path", "same"]),
+              first=st.booleans())
+        def kept_cycle(self, which, packaging, tgt, first):
+            """keep wrappers, save (no reopen), edit through the kept wrappers only, save again"""
+            r = self.r
+            if r is None or r.dead:
+                return
+            if first or not r.kept:
+                self.go({"op": "keep"})
+            self.go({"op": "save", "packaging": packaging, "target": tgt, "reopen": False, "pretty": False})
+            for w in which:
+                self.go({"op": "edit_kept", "which": w})
+            self.go({"op": "save", "packaging": packaging, "target": tgt, "reopen": False, "pretty": False})
+
+        @rule(which=st.sampled_from(["para", "body", "style", "meta"]))
+        def edit_kept(self, which):
+            if self.r is not None and not self.r.dead and self.r.kept:
+                self.go({"op": "edit_kept", "which": which})
 
         @rule(pre=st.sampled_from(["del_part", "del_part", "add_file", "paragraph", "none"]), i=st.integers(0, 9), c=st.integers(0, 3),
               post=st.sampled_from(["zip-bytesio", "zip-path", "same", "folder"]))
